@@ -141,4 +141,22 @@ def exportImage (im : ImgIn) (existing : List Bytes) : Except Err (Bytes × Byte
   else
     withName existing im.name (rawExt im.bits im.w im.h) (.ok im.data)
 
+/-- A run of exports into one directory: every exported file joins the directory listing; an
+    exception aborts the run (as it aborts `extract_text_to_fp`). -/
+def exportSeq : List ImgIn → List Bytes → List (Bytes × Bytes)
+  | [], _ => []
+  | im :: rest, existing =>
+    match exportImage im existing with
+    | .ok (nm, file) => (nm, file) :: exportSeq rest (nm :: existing)
+    | .error _ => []
+
+/-- `_save_bmp` of the pinned code (rows neither padded nor reordered), for the counter-examples. -/
+def saveBmpPinned (bits w h bpl : Nat) (data : Bytes) : Except Err Bytes :=
+  match ncolsOf bits with
+  | none => .error .value
+  | some ncols =>
+    match bmpHeader bits w h ncols with
+    | .error e => .error e
+    | .ok hdr => .ok (hdr ++ palette ncols ++ writeBodyPinned (lineSize bits w) (rowsOf bpl h data))
+
 end PdfVerif.Image
